@@ -12,8 +12,8 @@ import Exetera.Lemmas.GenKernelsCsvRun
     its subscript sites differently.  The theorem also says: no subscript of the translated kernel is out of range, the only
     negative subscript is the wrap-around read `column_inds[col_index, -1]` on the header line, both blank-skipping loops and
     `while True:` end within the fuel, and the `return` inside the loop is reached.
-  * `gen_fsm_whole_eq_spec`, `gen_fsm_window_eq_spec`, `gen_fsm_any_buffers_eq_spec`: the statements of `C05.fsm_whole_eq_spec`,
-    `C05.fsm_window_eq_spec` and `C05.fsm_any_buffers_eq_spec` (one call with ARBITRARY buffers: no flag / indices full / values
+  * `gen_fsm_whole_eq_spec`, `gen_fsm_split_at_record_end`, `gen_fsm_window_eq_spec`, `gen_fsm_any_buffers_eq_spec`: the statements of
+    `C05.fsm_whole_eq_spec`, `C05.fsm_split_at_record_end`, `C05.fsm_window_eq_spec` and `C05.fsm_any_buffers_eq_spec` (one call with ARBITRARY buffers: no flag / indices full / values
     full, and exactly which records it reports) for the translated kernel itself.  Every window / chunking / regrowth theorem of
     C05 is built from calls of this form.
 -/
@@ -61,6 +61,19 @@ theorem gen_fsm_whole_eq_spec {ncols maxrow : Nat} {offs : List Nat} (hrow : Lis
       ∀ c, c < ncols →
         Imp.importPart { kind := .indexed } o.inds o.vals offs c rows.length = .ok (fieldOf (column (values rows) c)) := by
   obtain ⟨o, hk, hrest⟩ := fsm_whole_eq_spec hrow rows hhdr htab hbuf hfit hrows
+  exact ⟨o, gen_fast_csv_reader_ok _ _ _ _ _ _ maxrow (zeros2_rect ncols maxrow) o hk fuel hf, hrest⟩
+
+/-- `C05.fsm_split_at_record_end` for the translated kernel: a call entered at a record end (byte `|pre|`, whatever lies in
+    front) yields exactly the records that follow -/
+theorem gen_fsm_split_at_record_end {ncols maxrow : Nat} {offs : List Nat} (pre : List Nat) (rowsB : List (List Cell))
+    (htab : Table ncols rowsB) (hne : rowsB ≠ []) (hbuf : Buffers ncols maxrow offs) (hfit : Fits ncols offs rowsB)
+    (hrows : rowsB.length < maxrow) (fuel : Nat) (hf : (pre ++ render rowsB).length + 1 ≤ fuel) :
+    ∃ o, genRun (pre ++ render rowsB) pre.length (zeros2 ncols (maxrow + 1)) (List.replicate (offs.getLastD 0) 0)
+          offs false fuel = .ok (outOf o) ∧
+      o.nextPos = (pre ++ render rowsB).length ∧ o.written = rowsB.length ∧ o.indsFull = false ∧ o.valsFull = false ∧
+      ∀ c, c < ncols →
+        Imp.importPart { kind := .indexed } o.inds o.vals offs c rowsB.length = .ok (fieldOf (column (values rowsB) c)) := by
+  obtain ⟨o, hk, hrest⟩ := fsm_split_at_record_end pre rowsB htab hne hbuf hfit hrows
   exact ⟨o, gen_fast_csv_reader_ok _ _ _ _ _ _ maxrow (zeros2_rect ncols maxrow) o hk fuel hf, hrest⟩
 
 /-- `C05.fsm_window_eq_spec` for the translated kernel: a window that ends inside a record, cut anywhere -/
